@@ -182,7 +182,7 @@ procedure store(vp, vc)
  st4:   ev := Ev(self, "stat", P("obj", vc), NoPath, FN(obj[vc] = "ok"));
  st5:   obj[vc] := "ok"; ev := Ev(self, "rename", P("tmp", "objects"), P("obj", vc), "ok");
       };
- st6: if (vp = "-") { result[self] := "ok"; return; }
+ st6: if (vp = "-") { result[self] := "ok"; rdata[self] := vc; return; }
       else { call tag(vp, vc); };
  st7: call release("objpid", vp);
  st8: return;
@@ -456,7 +456,7 @@ fair process (proc \in Thread) {
  fin: skip;
 }
 } *)
-\* BEGIN TRANSLATION (chksum(pcal) = "b3b312d" /\ chksum(tla) = "3567c87a")
+\* BEGIN TRANSLATION (chksum(pcal) = "b540f5d8" /\ chksum(tla) = "e0b192d")
 \* Procedure variable va of procedure tag at line 97 col 13 changed to va_
 \* Procedure variable vb of procedure tag at line 97 col 25 changed to vb_
 \* Procedure variable vrl of procedure tag at line 97 col 77 changed to vrl_
@@ -1293,6 +1293,7 @@ st5(self) == /\ pc[self] = "st5"
 st6(self) == /\ pc[self] = "st6"
              /\ IF vp_s[self] = "-"
                    THEN /\ result' = [result EXCEPT ![self] = "ok"]
+                        /\ rdata' = [rdata EXCEPT ![self] = vc_s[self]]
                         /\ pc' = [pc EXCEPT ![self] = Head(stack[self]).pc]
                         /\ vx_' = [vx_ EXCEPT ![self] = Head(stack[self]).vx_]
                         /\ vp_s' = [vp_s EXCEPT ![self] = Head(stack[self]).vp_s]
@@ -1320,13 +1321,13 @@ st6(self) == /\ pc[self] = "st6"
                         /\ vrp' = [vrp EXCEPT ![self] = None]
                         /\ vrl_' = [vrl_ EXCEPT ![self] = <<>>]
                         /\ pc' = [pc EXCEPT ![self] = "tg1"]
-                        /\ UNCHANGED << result, vp_s, vc_s, vx_ >>
+                        /\ UNCHANGED << result, rdata, vp_s, vc_s, vx_ >>
              /\ UNCHANGED << obj, pref, cref, doc, mark, keep, locked, waitq, 
-                             woken, ev, rdata, vtb_, vid_, vtb, vid, vc, vb_d, 
-                             vx_d, vp_d, vc_, vcls, vrl_d, va_d, vb_de, vx_de, 
-                             vdels, vdocs, vf_, vp_de, vtodo, vkeepl, vmarked, 
-                             ve, vp_p, vf_p, vver, vp_g, vf_g, vx_g, vp_del, 
-                             vf, vx_del, vp_delm, vp, vc_r, vrl, va, vb, vx >>
+                             woken, ev, vtb_, vid_, vtb, vid, vc, vb_d, vx_d, 
+                             vp_d, vc_, vcls, vrl_d, va_d, vb_de, vx_de, vdels, 
+                             vdocs, vf_, vp_de, vtodo, vkeepl, vmarked, ve, 
+                             vp_p, vf_p, vver, vp_g, vf_g, vx_g, vp_del, vf, 
+                             vx_del, vp_delm, vp, vc_r, vrl, va, vb, vx >>
 
 st7(self) == /\ pc[self] = "st7"
              /\ /\ stack' = [stack EXCEPT ![self] = << [ procedure |->  "release",
